@@ -18,6 +18,9 @@ template class vector<int>;
 inline void c06_use(map<int, int>& m, multimap<int, int>& mm, multiset<int>& ms, unordered_set<int>& us, unordered_map<int, int>& um, unordered_multimap<int, int>& umm)
 {
 	ms.insert(ms.begin(), ms.extract(ms.begin()));   // node round trips: insert(hint, node&&) bodies
+	{ set<int> s1; vector<int> v1; s1.merge(s1); m.merge(m); us.merge(us); (void)(s1 == s1); (void)(s1 != s1); (void)(s1 < s1); (void)(s1 > s1); (void)(s1 <= s1); (void)(s1 >= s1);   // relational operators
+	  (void)(m == m); (void)(m != m); (void)(m < m); (void)(m > m); (void)(m <= m); (void)(m >= m);
+	  (void)(v1 == v1); (void)(v1 != v1); (void)(v1 < v1); (void)(v1 > v1); (void)(v1 <= v1); (void)(v1 >= v1); }
 	(void)(us == us); (void)(um == um); (void)(umm == umm);   // friend operator== bodies
 	(void)m.at(1); m[1] = 2; m.try_emplace(1, 2); m.insert_or_assign(1, 2); (void)um.at(1); um[1] = 2; um.try_emplace(1, 2); um.insert_or_assign(1, 2);
 	ms.insert(ms.begin(), 1);
